@@ -140,6 +140,23 @@ def truth(v):
     raise OutOfSubset('truthiness of %r' % (v,))
 
 
+def int_valued(e):
+    """if the real term e is syntactically an integer-valued expression (to_real of an int term, its negation, an integer
+    numeral), returns that Int term, else None."""
+    if z3.is_app_of(e, z3.Z3_OP_TO_REAL):
+        return e.arg(0)
+    if z3.is_app_of(e, z3.Z3_OP_UMINUS):
+        t = int_valued(e.arg(0))
+        return None if t is None else -t
+    if z3.is_rational_value(e) and e.denominator_as_long() == 1:
+        return z3.IntVal(e.numerator_as_long())
+    if z3.is_app_of(e, z3.Z3_OP_MUL) and e.num_args() == 2:
+        a, b = int_valued(e.arg(0)), int_valued(e.arg(1))
+        if a is not None and b is not None:
+            return a * b
+    return None
+
+
 def num2(a, b):
     """coerce two scalars to a common arithmetic sort."""
     a, b = to_z3(a), to_z3(b)
@@ -471,6 +488,8 @@ class Engine:
         if isinstance(op, ast.Mod):
             if x.sort() == INT:
                 return x % y
+            if isinstance(b, int) and b == 1:
+                return x - z3.ToReal(z3.ToInt(x))     # float % 1 = x - floor(x)
             raise OutOfSubset('mod of reals')
         if isinstance(op, ast.Pow):
             if isinstance(b, int) and 0 <= b <= 4:
@@ -543,6 +562,9 @@ class Engine:
             e = to_z3(v)
             if e.sort() == INT:
                 return e
+            t = int_valued(e)
+            if t is not None:
+                return t
             return z3.If(e >= 0, z3.ToInt(e), -z3.ToInt(-e))
         if name == 'float':
             return to_z3(args[0], REAL) if is_z3(args[0]) else float(args[0])
